@@ -299,6 +299,14 @@ def run(ctx: Ctx):
     if r.violated:
         raise tlc.TLCMachineryError(f"EGraphMC violates {r.violated}")
     ctx.coverage["egraph_model_states"] = r.distinct
+    # every action is taken in the bounded model (TLC's -coverage is far too slow on the recursive operators: each action gets a
+    # "never happens" invariant that TLC must refute)
+    for inv in ("NeverAdd", "NeverMerge", "NeverRebuild"):
+        rn = tlc.run("eqsat/EGraphMC.tla", cfg_text=f"SPECIFICATION Spec\nCONSTANTS\n  MaxNodes = 6\n  MaxClasses = 5\n  Guarded = TRUE\nINVARIANT {inv}\n", workers=4, timeout=600,
+                     args=["-deadlock"], check=False)
+        if not rn.violated:
+            raise tlc.TLCMachineryError(f"EGraphMC: {inv} holds - the action is never taken in the bounded model")
+    ctx.coverage["egraph_model_actions_all_taken"] = True
     r2 = tlc.run("eqsat/EGraphMC.tla", cfg_text="SPECIFICATION Spec\nCONSTANTS\n  MaxNodes = 5\n  MaxClasses = 5\n  Guarded = FALSE\nINVARIANT Sound\n", workers=16, timeout=600,
                  args=["-deadlock"], check=False)
     if not r2.violated:
